@@ -118,6 +118,23 @@ def _run_model(case, ctx):
                 _call(other.spreading_pressure, x)
     except Exception:
         pass
+    if case["seed"] % 3 == 0:
+        # a parameter sweep (or a second fit) re-uses one model object: it was evaluated with other parameters before it got these
+        try:
+            reused = GM.make_model(name, GM.random_params(name, gen.rng(case["seed"], "reuse"), typed=False, monotone=monotone), temperature=T)
+            for x in (0.02, 0.3, 1.0):
+                _call(reused.loading, x)
+                _call(reused.pressure, x)
+                if hasattr(reused, "spreading_pressure"):
+                    _call(reused.spreading_pressure, x)
+            for k_ in list(reused.params):
+                reused.params[k_] = m.params[k_]
+            m = reused
+            ctx.count("model_objects", name + "/re-used-after-evaluation-with-other-parameters")
+        except Exception as exc:
+            ctx.count("skipped", name + "/reuse-unavailable")
+    else:
+        ctx.count("model_objects", name + "/fresh")
     explicit_p = name in GM.PRESSURE_EXPLICIT
     numeric = name in GM.NUMERIC_INVERSE
     mono_ok = GM.is_monotone(name, P)
